@@ -63,7 +63,7 @@ func (fr *frame) get(key ssa.Value) Value {
 	}
 	if i, ok := fr.info.idx[key]; ok {
 		r := fr.env[i]
-		if p, isP := r.(Poison); isP {
+		if p, isP := r.(Poison); isP && fr.st.initDepth == 0 {
 			panic(unsupported("use of value from unsupported initialiser: " + p.Why))
 		}
 		return r
@@ -458,7 +458,51 @@ const (
 	kJump
 )
 
+// poisonOperand: during package initialisation a value produced by an
+// unsupported function propagates through every instruction that consumes it.
+func (st *State) poisonOperand(fr *frame, instr ssa.Instruction) (Poison, bool) {
+	var buf [8]*ssa.Value
+	for _, op := range instr.Operands(buf[:0]) {
+		if *op == nil {
+			continue
+		}
+		switch (*op).(type) {
+		case *ssa.Const, *ssa.Function, *ssa.Builtin, *ssa.Global:
+			continue
+		}
+		if i, ok := fr.info.idx[*op]; ok {
+			if p, isP := fr.env[i].(Poison); isP {
+				return p, true
+			}
+		}
+	}
+	return Poison{}, false
+}
+
 func (st *State) visitInstr(fr *frame, instr ssa.Instruction) continuation {
+	if st.initDepth > 0 {
+		if p, ok := st.poisonOperand(fr, instr); ok {
+			switch in := instr.(type) {
+			case *ssa.Store:
+				if addr, isPtr := fr.get(in.Addr).(*Value); isPtr && addr != nil {
+					*addr = p
+				}
+				return kNext
+			case *ssa.If, *ssa.Jump, *ssa.Return, *ssa.Panic, *ssa.RunDefers, *ssa.Phi:
+				// fall through to normal handling (Return of poison is fine; If aborts below)
+				if _, isIf := instr.(*ssa.If); isIf {
+					panic(unsupported("branch on value from unsupported initialiser: " + p.Why))
+				}
+			case *ssa.MapUpdate, *ssa.Send, *ssa.Go, *ssa.Defer, *ssa.DebugRef:
+				return kNext
+			default:
+				if v, isVal := instr.(ssa.Value); isVal {
+					fr.set(v, p)
+					return kNext
+				}
+			}
+		}
+	}
 	switch instr := instr.(type) {
 	case *ssa.DebugRef:
 	case *ssa.UnOp:
